@@ -19,7 +19,7 @@ import sys
 
 sys.path.insert(0, os.path.dirname(os.path.abspath(__file__)))
 
-REPO = os.environ.get("QEXPY_REPO", "/repo")
+REPO = os.environ.get("QEXPY_REPO") or "/repo"
 HERE = os.path.dirname(os.path.abspath(__file__))
 GEN = os.path.join(os.path.dirname(HERE), "lean", "QExPy", "Generated")
 
